@@ -34,13 +34,13 @@ CONSTANTS FieldSet,   \* field paths of the universe, e.g. {"f", "g.h"}
 
 \* number universes selectable from a cfg (cfg files cannot write negative literals)
 Halves7 == {-4, -2, -1, 0, 1, 2, 4}      \* -2, -1, -1/2, 0, 1/2, 1, 2
-Halves5 == {-2, -1, 0, 1, 2}             \* -1, -1/2, 0, 1/2, 1
+Halves5 == {-4, -1, 0, 1, 4}             \* -2, -1/2, 0, 1/2, 2
 Halves3 == {-1, 0, 2}                    \* -1/2, 0, 1
 Halves2 == {-1, 2}                       \* -1/2, 1
 Halves1 == {-1}
 BoundsVol == {-1000, -3, 0, 3, 1000}
 Bounds7 == {-5, -3, -1, 0, 1, 3, 5}
-Bounds5 == {-3, -1, 0, 1, 3}
+Bounds5 == {-5, -2, 0, 1, 5}
 Bounds4 == {-3, -1, 0, 3}
 
 VARIABLES fields, docs, hist, sts
